@@ -116,14 +116,18 @@ EXTRA = {
  "C06": " Every family runs with the capturing logger at Trace and with logging off; offset-grid family: every offset word over every aligned value up to past the message length, offset pairs over a grid.",
  "C07": " Plus all permutations of the tag sequence of 11 request shapes (only the ascending order is well-formed) and header-word sweeps of valid requests.",
  "C08": " Plus ~4.3k near-valid single datagrams (every header word of a valid classic / IETF / IETF+SRV request swept over its range) at every log level.",
+ "C02": " The determinism self-test's two runs (same burst on two fresh Server objects of one process) are judged like any other execution.",
+ "C11": " Plus histories ending with a request that arrives inside a wake-up (at the polled/collected/sent hook point): its midpoint is not earlier than its send time.",
+ "C18": " Plus, with per-client statistics, W in-process Servers sharing one statistics queue of capacity 2W: every assignment of R hand-off rounds to the workers x every position of the single reporter pass.",
+ "C19": " A second signal during the shutdown is an environment action too (controlled scenarios and sampled wall-clock runs): still exit 0.",
  "C09": " IETF pool requests also name [0, draft-13] in VER; a framed request naming only version 0 is among the rejected kinds.",
- "C10": " Certificate sequences also certify the same online key again for the same and the other protocol.",
- "C12": " The table runs in five server states (batch sizes 1/2/4 with groups filling the batch exactly; after a full batch of 64).",
- "C13": " Verifier also over every message length 0..=4096 in 5-7 chunkings with bit flips, prefix signatures and extended messages.",
+ "C10": " Certificate sequences also certify the same online key again for the same and the other protocol; half of the live restarts run with fault_percentage 50 (deliberately invalid replies parsed leniently: their CERT is a certificate too).",
+ "C12": " The table runs in five server states (batch sizes 1/2/4 with groups filling the batch exactly; after a full batch of 64); lists of length <= 2 again with extra tags that move VER/SRV/NONC to other field positions.",
+ "C13": " Verifier also over every message length 0..=4096 in 5-7 chunkings with bit flips, prefix signatures and extended messages; every sequence (depth 4, thorough 5) of update/verify operations on ONE verifier object against direct verification.",
  "C14": " Plus every sequence (length 2..=3, thorough 4) of decrypt operations (healthy / each provider fault / another provider / tampered copy) on one blob in one process, each step judged.",
- "C15": " A thread that never reaches another hook point is decided on the real process (held, then with every thread released): blocked for good = violation start-hang.",
- "C17": " Plus the real Responder driven with return addresses send_to fails for: recorder totals vs datagrams that actually arrived, per batch.",
- "C20": " Plus configuration files whose structure is not a flat mapping (list, scalar, nested, sequences, several documents, broken quoting), output of the real server scanned.",
+ "C15": " A thread that never reaches another hook point is decided on the real process (held, then with every thread released): blocked for good = violation start-hang. Health histories include connections the peer aborts with RST before they are accepted.",
+ "C17": " Plus the real Responder driven with return addresses send_to fails for: recorder totals vs datagrams that actually arrived, per batch; the traffic comparison also runs with fault_percentage 50.",
+ "C20": " Plus configuration files whose structure is not a flat mapping (list, scalar, nested, sequences, several documents, broken quoting) and files giving every other setting a value of an unexpected YAML type, output of the real server scanned.",
 }
 for k, v in EXTRA.items():
     e = list(CHECKS[k]); e[3] = e[3] + v; CHECKS[k] = tuple(e)
